@@ -380,6 +380,10 @@ pub fn main(args: &[String]) -> i32 {
         let name = if crate::config_name() == "native" { "baseline" } else { "native" };
         bins.push((name.to_string(), o.clone()));
     }
+    // third configuration: the native build with debug assertions and overflow checks on, a quarter of the budget
+    if let Some(t) = arg(args, "--third-bin") {
+        bins.push(("native-dbg".to_string(), t));
+    }
     println!("dsim supervise property={} tier={} seed={} configs={:?}", prop, tier, seed, bins.iter().map(|b| b.0.clone()).collect::<Vec<_>>());
 
     let mut groups: Vec<Group> = Vec::new();
@@ -392,6 +396,7 @@ pub fn main(args: &[String]) -> i32 {
             .iter()
             .map(|(cfg, exe)| {
                 let (cfg, exe, sim, work) = (cfg.clone(), exe.clone(), sp.sim.to_string(), work.clone());
+                let (runs, nworkers) = if cfg.ends_with("-dbg") { ((runs / 4).max(16), (nworkers / 2).max(1)) } else { (runs, nworkers) };
                 std::thread::spawn(move || spawn_workers(&exe, &cfg, &sim, seed, runs, nworkers, &work, max_secs, enumerate))
             })
             .collect();
